@@ -1,7 +1,7 @@
 // AVAILABLE VALUE ANALYSIS
 // ========================
 
-use std::collections::HashSet;
+use std::collections::{HashMap, HashSet};
 use std::hash::Hash;
 use std::rc::Rc;
 
@@ -139,6 +139,17 @@ impl GenerationPass for AvailableValuePass {
                 }
             }
             map
+        };
+        // The CSRs every function names (itself or through its callees), looked
+        // up at every call in every sweep
+        let mut names_of: HashMap<*const crate::cfg::Function, Option<HashSet<CsrImm>>> =
+            HashMap::new();
+        let mut csrs_named_at = |node: &Rc<crate::cfg::CfgNode>| -> Option<HashSet<CsrImm>> {
+            let (callee, _) = node.calls_to_from_cfg(cfg)?;
+            names_of
+                .entry(Rc::as_ptr(&callee))
+                .or_insert_with(|| csrs_named_by(cfg, &callee, &mut Vec::new()))
+                .clone()
         };
         // A node all of whose predecessors come later in the program waits until
         // one of them has been visited: nothing is known about any way into it
@@ -307,9 +318,7 @@ impl GenerationPass for AvailableValuePass {
                         // CSRs: a callee that works with CSRs may write them, and
                         // whatever they point to. One that names no CSR cannot.
                         // (`None`: the callee is not known, it may name any)
-                        let named = node
-                            .calls_to_from_cfg(cfg)
-                            .and_then(|(callee, _)| csrs_named_by(cfg, &callee, &mut Vec::new()));
+                        let named = csrs_named_at(&node);
                         let is_safe =
                             |csr: &CsrImm| named.as_ref().is_some_and(|set| !set.contains(csr));
                         map = retain_values(map, |location, _| match (location, curr_stack) {
@@ -359,10 +368,7 @@ impl GenerationPass for AvailableValuePass {
                 }
                 // (a callee that works with CSRs may write the words behind them)
                 let named_by_callee = if node.calls_to().is_some() {
-                    Some(
-                        node.calls_to_from_cfg(cfg)
-                            .and_then(|(callee, _)| csrs_named_by(cfg, &callee, &mut Vec::new())),
-                    )
+                    Some(csrs_named_at(&node))
                 } else {
                     None
                 };
